@@ -1218,8 +1218,12 @@ def check_c12(tier, seed, log=print):
     def mode_sensitive(d):
         return bool(d.subpatterns) or any((not l.is_bytes) and (any(ord(ch) > 127 for ch in l.pat) or '.' in l.pat or '[^' in l.pat or '\\s' in l.pat or '\\w' in l.pat or '\\d' in l.pat)
                                           for l in d.leaves)
-    first = [d for d in allb if mode_sensitive(d)]
-    rest = [d for d in allb if not mode_sensitive(d)]
+    # ... and the definitions whose callbacks bump: Lexer::bump goes through the source's own is_boundary, the one place where the two
+    # source types decide differently at run time
+    def bumps(d):
+        return any(l.cb in (20, 21, 22) for l in d.leaves)
+    first = [d for d in allb if bumps(d)][:4] + [d for d in allb if mode_sensitive(d) and not bumps(d)]
+    rest = [d for d in allb if not mode_sensitive(d) and not bumps(d)] + [d for d in allb if bumps(d)][4:]
     lim = 22 if tier == 'quick' else 140
     base = (first[: lim - 6] + rest)[:lim]
     twins = []
